@@ -201,7 +201,7 @@ impl Leg for Runs {
         (gen::k_strategy(), gen::threads_strategy(), prop::sample::select(vec![1usize, 2, 3, 5, 12, 30]), any::<bool>())
             .prop_flat_map(move |(k, threads, chunks, acgt)| {
                 let p = rec_params(tier, k);
-                (gen::records_in_container(p), gen::sched_strategy(true, 120)).prop_map(move |((recs, cont), sched)| {
+                (gen::records_mixed_in_container(p), gen::sched_strategy(true, 120)).prop_map(move |((recs, cont), sched)| {
                     let threads = if matches!(sched, Sched::Controlled(_)) { ((threads - 1) % 6) + 1 } else { threads };
                     Case { recs, cont, k, threads, chunks, acgt, sched }
                 })
